@@ -177,7 +177,7 @@ func main() {
 		d := doneLine{T: "done", Run: run, Cfg: r.Name() + " " + rc.cfg, Sig: fmt.Sprintf("%016x", sim.Sig),
 			Steps: sim.Counters[simrt.CtSteps], Ops: rc.ops, Nontrivial: rc.nontrivial, Overrun: sim.Overrun, Viol: viol}
 		if viol != nil || tape != nil {
-			d.Tape = &simrt.Tape{Program: prog.Out(), Schedule: sched.Out()}
+			d.Tape = &simrt.Tape{Program: prog.Out(), Schedule: sched.Out(), ProgramSpans: prog.Spans()}
 		}
 		if tracing {
 			d.Trace = sim.RenderTrace()
